@@ -347,12 +347,16 @@ def gen_twin(seed, tier):
     W = "workload"
     ops = []
     for i in range(ch.randint(W, "nops", 3, 30)):
-        k = ch.weighted(W, ("k", i), [("create", 4), ("write", 10), ("read", 5), ("list", 2), ("abort", 1), ("lease", 1.5), ("rtw", 6), ("mread", 4), ("mlist", 1.5)])
+        k = ch.weighted(W, ("k", i), [("create", 4), ("write", 10), ("plan", 2.5), ("read", 5), ("list", 2), ("abort", 1), ("lease", 1.5), ("rtw", 6), ("mread", 4), ("mlist", 1.5)])
         si_i = ch.randrange(W, ("si", i), 3)
         if k == "create":
             ops.append(["create", si_i, sorted(ch.sample(W, ("shs", i), range(3), ch.randint(W, ("n", i), 1, 3))), ch.pick(W, ("size", i), [1, 10, 100, 300]), ch.randrange(W, ("sec", i), 3)])
         elif k == "write":
             ops.append(["write", ch.randrange(W, ("w", i), 64), ch.randrange(W, ("off", i), 320), ch.pick(W, ("len", i), [1, 3, 10, 50, 100, 300]), ch.chance(W, ("honest", i), 0.85)])
+        elif k == "plan":
+            # the whole share in n chunks, sent in a drawn order (first-last-middle, reverse, ...)
+            n_ = ch.randint(W, ("pn", i), 2, 5)
+            ops.append(["plan", ch.randrange(W, ("w", i), 64), n_, ch.shuffle(W, ("porder", i), range(n_))])
         elif k == "read":
             ops.append(["read", si_i, ch.randrange(W, ("sh", i), 3), ch.pick(W, ("off", i), [0, 0, 1, 9, 10, 99, 100, 101, 400]), ch.pick(W, ("len", i), [1, 10, 100, 1000])])
         elif k == "list":
@@ -406,11 +410,36 @@ def exec_twin(case):
                     out[os.path.relpath(p, ss.sharedir)] = fh.read()
         return out
 
-    for opi, op in enumerate(case["ops"]):
+    expanded = []
+    for op in case["ops"]:
+        if op[0] == "plan":
+            _, wi, n_, order = op
+            for c_ in order:
+                expanded.append(["write-chunk", wi, c_, n_])
+        else:
+            expanded.append(op)
+    plan_writer = [None]
+    for opi, op in enumerate(expanded):
         k = op[0]
         R.note(repr(op))
         next_second()
         t0 = R.true_seconds()
+        if k == "write-chunk":
+            # chunk c of n of one live upload (the same upload for the whole plan)
+            lv = live()
+            if plan_writer[0] is None or plan_writer[0]["done"] or plan_writer[0].get("plan") != (op[1], op[3]):
+                if not lv:
+                    continue
+                plan_writer[0] = lv[op[1] % len(lv)]
+                plan_writer[0]["plan"] = (op[1], op[3])
+            pw = plan_writer[0]
+            step = max(1, (pw["size"] + op[3] - 1) // op[3])
+            off_ = op[2] * step
+            if off_ >= pw["size"]:
+                continue
+            op = ["write", live().index(pw), off_, min(step, pw["size"] - off_), True]
+            k = "write"
+            probe("planned-chunk")
         try:
             if k == "create":
                 _, si_i, shs, size, sec = op
@@ -440,7 +469,12 @@ def exec_twin(case):
                 st, r = A.drive(A.imm.write_share_chunk(si_of(w["si_i"]), w["sh"], w["secret"], off, data))
                 R._now = t0
                 try:
-                    fin = w["bw"].write(off, data)
+                    w["bw"].write(off, data)
+                    # completion is judged by the harness's own bookkeeping of the bytes written so far, not by a flag of
+                    # the code under test: the upload is complete exactly when every byte of the share has been written
+                    cov = w.setdefault("covered", set())
+                    cov.update(range(off, off + len(data)))
+                    fin = (len(cov) >= w["size"])
                     if fin:
                         w["bw"].close()
                     dres = ("ok", fin)
